@@ -241,6 +241,17 @@ Fixpoint simb (n : nat) (g1 : graph) (o1 : obj) (g2 : graph) (o2 : obj) : bool :
   end.
 
 (* ------------------------------------------------------------------ *)
+(* optimizeContentStreamUsage (optimize.go): the duplicate test for page content streams,
+   used when Configuration.OptimizeDuplicateContentStreams is set: same StreamLength and
+   bytes.Equal(sd.Raw, sd1.Raw).  The stream dictionaries are not compared. *)
+Definition contentStreamDup (o1 o2 : obj) : bool :=
+  match o1, o2 with
+  | OStream _ r1, OStream _ r2 =>
+      Nat.eqb (length (rawbytes r1)) (length (rawbytes r2)) && beqb (rawbytes r1) (rawbytes r2)
+  | _, _ => false
+  end.
+
+(* ------------------------------------------------------------------ *)
 (* the optimizer's action on the graph: some references are replaced by others
    (optimizeFontResourcesDict: rDict[rName] = *ir, optimizeXObjectImage, optimizeForm,
    optimizePageContent: pageDict["Contents"] = *ir) *)
